@@ -56,9 +56,16 @@ func DecodeSgpdSR(hdr BoxHeader, startPos uint64, sr bits.SliceReader) (Box, err
 		if descriptionLength == 0 {
 			return nil, fmt.Errorf("sgpd: invalid descriptionLength of 0")
 		}
+		if uint64(descriptionLength) > uint64(sr.NrRemainingBytes()) {
+			return nil, fmt.Errorf("sgpd: descriptionLength %d exceeds the %d bytes left in the box", descriptionLength, sr.NrRemainingBytes())
+		}
+		entryStart := sr.GetPos()
 		sgEntry, err := decodeSampleGroupEntry(b.GroupingType, descriptionLength, sr)
 		if err != nil {
 			return nil, err
+		}
+		if nrRead := sr.GetPos() - entryStart; nrRead != int(descriptionLength) {
+			return nil, fmt.Errorf("sgpd: %s entry of %d bytes does not match descriptionLength %d", b.GroupingType, nrRead, descriptionLength)
 		}
 		b.SampleGroupEntries = append(b.SampleGroupEntries, sgEntry)
 	}
